@@ -124,10 +124,6 @@ def run(tier, seed, rep):
                 A["isotope"].pop()
         ion = rnd.choice(ION_TYPES) if rnd.random() < 0.7 else "p"
         zarg = rnd.choice([NOARG, NOARG, 1, 2, 3, 4, -1, -2, -3, 0])
-        if ion not in ("p", "n") and zarg == 0:
-            zarg = 1
-        if ion not in ("p", "n") and zarg == NOARG and A["charge"] == 0:
-            zarg = 1
         adducts_arg = adduct_string(rnd) if rnd.random() < 0.12 else ""
         mono = rnd.random() < 0.6
         iso = rnd.choice([0, 0, 1, 2, 3])
